@@ -16,9 +16,23 @@ SB = 'pexpect.spawnbase.SpawnBase'
 ASYNC = 'pexpect._async_w_await.repl_run_command_async'
 
 
+class WantLines:
+    """what run_command has to send, as a VALUE: the lines of the command (as str.splitlines gave them) plus a final
+    empty line when the command ends in a newline - independent of which list object the code keeps them in"""
+    def __init__(self, base, nl):
+        self.base, self.nl = base, nl
+        self.len = base.len + ite(nl, 1, 0)
+
+    def get(self, k):
+        import z3
+        return z3.If(k < self.base.len, self.base.get(k), z3.StringVal(''))
+
+
 def lines_of(v, new=False):
     """the list of lines the command was split into, in its current state (the code may append to it)"""
     x = v.g['cmdlines']
+    if isinstance(x, WantLines):
+        return x
     if hasattr(x, 'oid'):
         return v.view(x, new=new)
     return x
@@ -213,12 +227,7 @@ class RunCommand(Contract):
             return []
         if not is_sym(v.g['nsend']) and v.g['nsend'] == 0:
             return [('C16:no-command-is-an-error', v.raised == 'ValueError')]
-        lines = lines_of(v, new=True)
-        import z3
-        nl = z3.SuffixOf(z3.StringVal('\n'), v.old.command)
-        extra = [('C16:lines-are-the-lines-of-the-command', And(eq(v.g['split_of'], v.old.command),
-                                                                eq(lines.len, v.g['split_len'] + ite(nl, 1, 0)))),
-                 ('C16:trailing-newline-gives-a-final-empty-line', Implies(nl, eq(lines.get(lines.len - 1), '')))]
+        extra = [('C16:lines-are-the-lines-of-the-command', eq(v.g['split_of'], v.old.command))]
         return repl_post(v, False) + extra
 
 
@@ -230,7 +239,9 @@ class SplitLinesRepl(Contract):
         return [Ret(TSymList((('line', T.Text),), True))]
 
     def effects(self, v):
-        v.g['cmdlines'] = v.result_v        # the list object itself: later views read its current contents
+        import z3
+        # v.result is a view over the state at return: a value, not the list object the code goes on to modify
+        v.g['cmdlines'] = WantLines(v.result, z3.SuffixOf(z3.StringVal('\n'), v.old.s))
         v.g['split_len'] = v.result.len
         v.g['split_of'] = v.old.s
 
